@@ -268,7 +268,7 @@ func (x *Exec) builtin(st *State, b *ssa.Builtin, args []Value, cc *ssa.CallComm
 func (x *Exec) writeInto(st *State, dst VSlice, data *Term, in ssa.Instruction) {
 	c := st.mut(dst.Arr)
 	if dst.Arr.Kind == "buffer" && dst.Epoch != c.Epoch {
-		x.oblige(st, "safe", fmt.Sprintf("stale-buffer-view@b%d", blockIdx(in)), False, "slice from buf.Bytes() used after the buffer was modified")
+		x.obligeProps(st, "safe", fmt.Sprintf("stale-buffer-view@b%d", blockIdx(in)), False, "slice from buf.Bytes() used after the buffer was modified (the model of the write / read is only valid for a live view, so this is an obligation of every run)", x.props)
 	}
 	c.Seq = Splice(c.Seq, dst.Lo, data)
 }
